@@ -63,7 +63,9 @@ func (c *CronStore) updateTask(added, removed []*Entry) error {
 	}
 
 	for _, ent := range added {
-		next := ent.Next()
+		// Only peek here: the entry is advanced when the edit is committed,
+		// so that a rejected edit does not cost any entry an occurrence.
+		next := ent.Param()
 		key := paramToSerializable(next)
 
 		_, cHas := c.entries[key]
@@ -116,6 +118,7 @@ func (c *CronStore) updateTask(added, removed []*Entry) error {
 	}
 
 	for key, set := range entryMap {
+		set.entry.Next()
 		c.entries[key] = set.entry
 		c.schedule.Push(set.wrappedTask)
 	}
